@@ -47,7 +47,25 @@ class Slots(LightNodeMixin):
         self.tag = "t%d" % i
 
 
-KINDS = ["node", "anynode", "user", "bucket", "alleq", "slots", "symlink"]
+class Named(LightNodeMixin):
+    __slots__ = ("i", "tag")
+
+    def __init__(self, i):
+        self.i = i
+        self.tag = "t%d" % i
+
+
+class Weighted(Named):
+    """second level of a __slots__ hierarchy"""
+
+    __slots__ = ("weight",)
+
+    def __init__(self, i):
+        Named.__init__(self, i)
+        self.weight = 10 + i
+
+
+KINDS = ["node", "anynode", "user", "bucket", "alleq", "slots", "symlink", "slots2"]
 
 
 def make(kind, pv, link_targets):
@@ -65,6 +83,8 @@ def make(kind, pv, link_targets):
             nd = AllEq(i)
         elif kind == "slots":
             nd = Slots(i)
+        elif kind == "slots2":
+            nd = Named(i) if i % 2 == 0 else Weighted(i)
         else:
             t = link_targets[i]
             nd = Node("n%d" % i, foo=i) if t is None else SymlinkNode(nodes[t])
@@ -78,6 +98,8 @@ def make(kind, pv, link_targets):
 def attrs_of(nd):
     if isinstance(nd, Slots):
         return ("slots", nd.i, nd.tag)
+    if isinstance(nd, Named):
+        return ("slots2", nd.i, nd.tag, getattr(nd, "weight", "<no weight>"))
     d = dict((k, v) for k, v in nd.__dict__.items() if k not in ("_NodeMixin__parent", "_NodeMixin__children", "target"))
     return sorted(d.items(), key=lambda kv: kv[0])
 
@@ -114,7 +136,7 @@ def c19_body(cfg):
     parent, children = model_from_pv(pv)
     kind = KINDS[nondet_int(0, len(KINDS) - 1, "class")]
     entry = nondet_int(0, n - 1, "entry")
-    method = nondet_int(2 if kind == "slots" else 0, 6, "protocol_or_deepcopy")
+    method = nondet_int(2 if kind in ("slots", "slots2") else 0, 6, "protocol_or_deepcopy")
     link_targets = [None] * n
     other_tree_target = False
     if kind == "symlink":
